@@ -1,7 +1,35 @@
 import TenpyModel.Core.Codec
+import TenpyModel.C06.ModelExt
 open Lean TenpyModel TenpyModel.J TenpyModel.Core TenpyModel.Core.Codec
 
 def boolList := listOf getBool
+
+def optJ (f : α → Json) : Option α → Json
+  | none => Json.null
+  | some a => f a
+
+def tripleOfJson (j : Json) : Except String (Nat × Nat × Nat) := do
+  match ← natList j with
+  | [a, b, c] => return (a, b, c)
+  | _ => throw "triple expected"
+
+/-- `[charge, start, stop]` -/
+def qdEntryOfJson (j : Json) : Except String (Charge × Nat × Nat) := do
+  match ← getArr j with
+  | [c, b, e] => return (← intList c, ← getNat b, ← getNat e)
+  | _ => throw "qdict entry expected"
+
+def qdEntryToJson (e : Charge × Nat × Nat) : Json :=
+  Json.arr #[ofIntList e.1, Json.num (JsonNumber.fromNat e.2.1), Json.num (JsonNumber.fromNat e.2.2)]
+
+def sortJ (s : List Nat × Leg) : Json := obj [("perm", ofNatList s.1), ("leg", legToJson s.2)]
+def bunchJ (b : List Nat × Leg) : Json := obj [("idx", ofNatList b.1), ("leg", legToJson b.2)]
+def projectJ (pr : List Int × List (List Bool) × Leg) : Json :=
+  obj [("map", ofIntList pr.1), ("masks", ofList (ofList (fun (x : Bool) => (x : Json))) pr.2.1), ("leg", legToJson pr.2.2)]
+
+def optBool : Option Bool → Json
+  | none => Json.null
+  | some b => b
 
 def handle (j : Json) : Except String Json := do
   let k ← getStr (← field j "k")
@@ -9,9 +37,25 @@ def handle (j : Json) : Except String Json := do
     let legs ← listOf legOfJson (← field j "legs")
     let p := Pipe.init legs (← getInt (← field j "qconj")) (← getBool (← field j "sort")) (← getBool (← field j "bunch"))
     let idxs ← listOf intList (fieldD j "idx" (Json.arr #[]))
-    return obj [("pipe", pipeToJson p), ("flat", ofList (fun i => optNat (p.mapIncomingFlat i)) idxs),
+    let base := [("pipe", pipeToJson p), ("flat", ofList (fun i => optNat (p.mapIncomingFlat i)) idxs),
                 ("qflat", ofCharges p.leg.toQflat), ("sane", p.leg.sane),
                 ("conj", pipeToJson p.conj), ("outer_conj", pipeToJson p.outerConj)]
+    -- conversions: `to_LegCharge`, and `sort` / `bunch` / `project`, which convert first
+    let conv ← match (j.getObjVal? "psb").toOption with
+      | none => pure []
+      | some b => do
+        let psb ← getBool b
+        let mask ← boolList (← field j "pmask")
+        let l := p.toLegCharge
+        pure [("to_leg", legToJson l), ("psort", sortJ (l.sort psb)), ("pbunch", bunchJ l.bunch),
+              ("pproject", projectJ (l.project mask))]
+    let mp ← match (j.getObjVal? "dx").toOption with
+      | none => pure []
+      | some d => do
+        let dx ← intList d
+        let cd ← optOf (listOf tripleOfJson) (fieldD j "cd" Json.null)
+        pure [("map", optJ pipeToJson (p.shift cd dx))]
+    return obj (base ++ conv ++ mp)
   else if k == "leg" then
     let l ← legOfJson (← field j "leg")
     let mask ← boolList (← field j "mask")
@@ -34,6 +78,54 @@ def handle (j : Json) : Except String Json := do
       ("gq", ofList (fun i => match l.getQindex i with
                       | none => Json.null
                       | some (a, b) => ofNatList [a, b]) gq)]
+  else if k == "conv" then
+    let l ← legOfJson (← field j "leg")
+    let cd ← optOf (listOf tripleOfJson) (fieldD j "cd" Json.null)
+    let dx ← intList (← field j "dx")
+    -- from_trivial(n, chargeinfo or None, qconj)
+    let t ← field j "trivial"
+    let tmods := if (← getBool (← field t "ci")) then l.mods else []
+    let triv := Leg.fromTrivial (← getNat (← field t "n")) tmods (← getInt (← field t "qconj"))
+    -- from_qflat
+    let qf ← field j "qflat"
+    let qrows ← listOf intList (← field qf "rows")
+    let qfq ← getInt (← field qf "qconj")
+    let qfl : Option Leg :=
+      if qrows.all (fun r => r.length == l.qnumber) then some (Leg.fromQflat l.mods qrows qfq)
+      else none
+    -- qdict
+    let qde ← optOf (listOf qdEntryOfJson) (fieldD j "qd_entries" Json.null)
+    let fromQd : Option Leg := qde.bind (fun es => Leg.fromQdict l.mods es l.qconj)
+    -- add / drop / change
+    let adds ← listOf legOfJson (← field j "adds")
+    let drop ← optOf getNat (← field j "drop")
+    let chg ← natList (← field j "change")
+    let goc ← listOf intList (← field j "goc")
+    let other ← legOfJson (← field j "other")
+    let other2 ← legOfJson (← field j "other2")
+    let raw ← field j "raw"
+    let rawOk := Leg.ctorOk l.mods (← natList (← field raw "slices")) (← listOf intList (← field raw "charges"))
+                   (← getInt (← field raw "qconj"))
+    let eqs := obj [
+      ("eq", optBool (l.eq? other)), ("ne", optBool ((l.eq? other).map (!·))),
+      ("eq_copy", optBool (l.eq? l)), ("eq_conj", optBool (l.eq? l.conj)), ("eq2", optBool (l.eq? other2)),
+      ("test_equal", optBool (if l.testEqual other then some true else none)),
+      ("test_contractible", optBool (if l.testContractible other.conj then some true else none)),
+      ("test_contractible_self", optBool (if l.testContractible l then some true else none))]
+    return obj [
+      ("trivial", legToJson triv), ("qflat", optJ legToJson qfl),
+      ("to_qdict", optJ (ofList qdEntryToJson) l.toQdict), ("from_qdict", optJ legToJson fromQd),
+      ("add", optJ legToJson (Leg.fromAddCharge (l :: adds))),
+      ("drop", optJ legToJson (l.fromDropCharge drop)),
+      ("change", optJ legToJson (l.fromChangeCharge (chg.getD 0 0) (chg.getD 1 1))),
+      ("map", optJ legToJson (l.shift cd dx)),
+      ("sectors", ofCharges l.chargeSectors),
+      ("goc", ofList (fun c => optNat (l.getQindexOfCharges c)) goc),
+      ("get_charge", ofCharges ((List.range l.blockNumber).map l.getCharge)),
+      ("block_sizes", ofNatList l.blockSizes),
+      ("get_slice", ofList (fun i => ofNatList [(l.getSlice i).1, (l.getSlice i).2]) (List.range l.blockNumber)),
+      ("ext_int", legToJson (l.extendInt (← getNat (← field j "ext_n")))),
+      ("eq", eqs), ("raw_ok", rawOk)]
   else throw s!"unknown kind {k}"
 
 def main : IO Unit := serve handle
